@@ -98,9 +98,9 @@ CLAIMS = {
         note="Trusted: Coq kernel, translator (tables, constants), extraction, drivers, generators. yaml.v2, go-ucfg and text/template are exercised (the whole amd64 and 386 tables pass through both emitters on every run), not modelled; arm profiles cannot be produced (the disassembly parser refuses arm).",
         ref="DESIGN.md 6 (C18)"),
     "C19": dict(
-        text="Kernel-checked theorems over the per-target constant records REGENERATED by type-checking package seccomp under every GOOS/GOARCH of `go tool dist list` (coq/properties/C19.v): the package type-checks everywhere; actions, flags, prctl option, seccomp operations and EPERM equal the vendored UAPI values on every target and ENOSYS is the kernel's value for that CPU (89 on Linux/mips*, else 38) - 38 wherever a syscall table exists, so the constant record and hence compile is the same on every target with tables; non-Linux targets compile the stub file, whose functions contain no call and whose Supported returns false; targets without tables get unsupported-arch. Finite domain, decided by reflection.",
-        technique="Rocq proof by reflection over records regenerated with go/types per build context + cross-check of the running build's constants + go build (and vet in the thorough tier) per target",
-        note="Trusted: Coq kernel, the translator and the Go type checker (go/types with the source importer) it calls, vendored UAPI values (linux-libc-dev 6.1; re-read from /usr/include when present). Non-Linux binaries cannot be run here: the stubs are inspected syntactically (no call expression, returned literal).",
+        text="Kernel-checked theorems over the per-target constant records REGENERATED by type-checking package seccomp under every GOOS/GOARCH of `go tool dist list` (coq/properties/C19.v): the package type-checks everywhere; actions, flags, prctl option, seccomp operations and EPERM equal the vendored UAPI values on every target and ENOSYS is the kernel's value for that CPU (89 on Linux/mips*, else 38) - 38 wherever a syscall table exists, so the constant record and hence compile is the same on every target with tables; on every non-Linux target the three loader functions of the package as built for THAT target (regenerated per target, whatever files its build constraints select) contain no call expression and Supported returns false; targets without tables get unsupported-arch. Finite domain, decided by reflection.",
+        technique="Rocq proof by reflection over records regenerated with go/types per build context + cross-check of the running build's constants + go build (and vet in the thorough tier) per target + run-time compilation on js/wasm (node) and linux/386",
+        note="Trusted: Coq kernel, the translator and the Go type checker (go/types with the source importer) it calls, vendored UAPI values (linux-libc-dev 6.1; re-read from /usr/include when present). Non-Linux binaries cannot be run here: the stubs are inspected syntactically per target (no call expression, returned literal); the one table-less target this host can execute (js/wasm under node) is RUN: 84 policies through the public API must all fail, with linux/386 as control.",
         ref="DESIGN.md 6 (C19)"),
 }
 
